@@ -135,6 +135,21 @@ def _peval(t, env: Dict[tuple, object], funcs=None):
         if _is_const(v) and isinstance(v[1], NUM):
             return ("const", -v[1])
         return ("neg", v)
+    if k == "call" and t[1] == ("builtin", "next") and len(t[2]) in (1, 2) and not t[3] and t[2][0][0] == "comp" and len(t[2][0][3]) == 1 \
+            and t[2][0][3][0][1][0] in ("tuple", "list") and not any(x[0] == "star" for x in t[2][0][3][0][1][1]):
+        # next((f(row) for row in (<rows>) if c(row)), default) over a display of rows: the first row whose condition folds to true
+        from .sym import subst, fold_sub
+        lid, rows, conds = t[2][0][3][0]
+        undecided = False
+        for row in rows[1]:
+            vals = [peval(fold_sub(subst(c, {("elem", lid): row})), env, funcs) for c in conds]
+            if all(_is_const(v) and v[1] for v in vals):
+                return peval(fold_sub(subst(t[2][0][2], {("elem", lid): row})), env, funcs)
+            if not all(_is_const(v) for v in vals):
+                undecided = True
+                break
+        if not undecided and len(t[2]) == 2:
+            return peval(t[2][1], env, funcs)
     if k == "call":
         f = t[1]
         args = [peval(a, env, funcs) for a in t[2]]
